@@ -1,9 +1,12 @@
 #!/bin/sh
-# runs every registered quick check against every seeded change (applied to /repo, undone afterwards)
+# runs every registered quick check against seeded changes (each applied to /repo, undone afterwards)
 # and records which checks report a violation:  seeded/<id>/detected.json  and  seeded/MATRIX.txt
+# usage: seeded_matrix.sh            all changes, rewrites seeded/MATRIX.txt
+#        seeded_matrix.sh <id>...    only these; their rows replace / extend those of seeded/MATRIX.txt
 cd /verif
 : > seeded/MATRIX.new
-for d in seeded/*/; do
+if [ $# -gt 0 ]; then LIST=""; for i in "$@"; do LIST="$LIST seeded/$i/"; done; else LIST=$(ls -d seeded/*/); fi
+for d in $LIST; do
   id=$(basename $d)
   [ -f $d/patch.diff ] || continue
   (cd /repo && git apply /verif/$d/patch.diff) || { echo "$id: patch does not apply" >> seeded/MATRIX.new; continue; }
@@ -24,6 +27,16 @@ d,h=sys.argv[1],sys.argv[2].split()
 json.dump({"violations_reported_by":h,"note":"(nfi) = reported with no-failing-input-found (correspondence or proof gate broken, oracle silent)"},open(d+"/detected.json","w"),indent=1)
 PY
 done
+if [ $# -gt 0 ] && [ -f seeded/MATRIX.txt ]; then
+  python3 - <<'PY'
+rows={}
+for fn in ('seeded/MATRIX.txt','seeded/MATRIX.new'):
+    for l in open(fn):
+        if ':' in l:
+            rows[l.split(':',1)[0]]=l.rstrip('\n')
+open('seeded/MATRIX.new','w').write('\n'.join(rows[k] for k in sorted(rows))+'\n')
+PY
+fi
 mv seeded/MATRIX.new seeded/MATRIX.txt
 rm -rf /tmp/matrix_out
 cat seeded/MATRIX.txt
